@@ -31,6 +31,12 @@ func normEnum(n string) string {
 
 func c06() []*Ob {
 	return []*Ob{
+		{Prop: "C06", ID: "C06.9", Engine: "DOM", Floor: 1,
+			Desc:  "a partial result without samples does not move the extrema: SamplesContainer.Merge reads the operand's Min and Max only when the operand has samples (Total != 0) — the sentinel start values are identities for min/max only inside the sentinel's range, and a container built with zero Min/Max (a part that only counted not-exists documents) drags the group's minimum or maximum to 0 when it is merged last",
+			Check: func(c *Ctx) { mergeIgnoresEmptyOperand(c) }},
+		{Prop: "C06", ID: "C06.10", Engine: "PAIR(two sites)", Floor: 1,
+			Desc:  "one question per document and iterator, or a repeatable answer: SourcedNodeIterator.ConsumeTokenSource leaves the underlying node on a hit, or — if it steps on at once — no aggregator is given the same iterator for its two roles. With both relaxed, sum(x) by x asks the shared iterator twice per document and every document counts as lacking the field",
+			Check: func(c *Ctx) { iteratorConsumedOncePerDoc(c) }},
 		{Prop: "C06", ID: "C06.8", Engine: "FIELDS(read/maintained)", Floor: 6,
 			Desc: "every number an aggregator reports is one it keeps: for each aggregator type of frac/processor, every counter or table of the receiver (integer or map field) that Aggregate reads is written by Next (directly or through a helper) — a counter that is read into the result but never incremented (the not-exists count of the group, lost with the one line that bumped it) is reported as 0 whatever the documents were",
 			Check: func(c *Ctx) {
